@@ -48,7 +48,8 @@ for _pid, _txt in (
                     "checked exhaustively against the same clauses (and the pinned variant is refuted), and the code is shown to follow the model on "
                     "model-generated histories (trace validation, SpokRunModelTrace). A first stage of guided adversarial histories and random walks, "
                     "judged by the same invariants, finds shallow violations quickly." + (" For C10 a real kill -9 of the built binary from inside a task "
-                    "command is also executed (24 histories) and judged by the same invariants." if _pid == "C10" else ""), RUNTB, "5 run/cache family; 9")
+                    "command is also executed (24 histories) and judged by the same invariants; the guided histories also leave an empty temporary / lock file next to the cache file, as a kill inside an atomic write would." if _pid == "C10" else
+                    (" For C14 --force is also exercised through the built binary (8 histories with named and unnamed requests, i.e. the task called default) and judged by the same invariants." if _pid == "C14" else "")), RUNTB, "5 run/cache family; 9")
 
 CHECKS["C03"] = ("TaskGraph", "TLC model check of the closure + Kahn model over every configuration (initial states) incl. termination; every "
                  "dependency function x request list executed for real (repeated for map order) and judged by a TLC relation",
@@ -92,8 +93,8 @@ for _pid, _txt in (
     ("C07", "SemEq_C07: the formatted text parses and defines the same variables and tasks in the same order; FmtOnDisk_C07: after `spok --fmt` (the "
             "binary, as nobody; sample of generated inputs plus hand-written complete programs) the file on disk holds exactly the formatter's text, "
             "and is untouched when spok refuses"),
-    ("C11", "Idem_C11: formatting the formatted text returns it byte for byte"),
-    ("C15", "Kept_C15: the sequence of non-empty comments, assignments and tasks-with-docstring is unchanged by formatting")):
+    ("C11", "Idem_C11: formatting the formatted text returns it byte for byte; FmtOnDisk_C11: a sample of parsed inputs is formatted in place twice with the built binary and the second run changes nothing"),
+    ("C15", "Kept_C15: the sequence of non-empty comments, assignments and tasks-with-docstring is unchanged by formatting; KeptOnDisk_C15: the same for the file `spok --fmt` (built binary) leaves on disk, parsed again")):
     CHECKS[_pid] = ("SpokSyntax", SYNTECH,
                     "SpokSyntax.tla renders abstract spokfiles in every layout with up to two deviations from the default (small structures) and in random "
                     "layouts (thousands of random structures), stating the denoted token stream and tree; together with every string over the 25-class lexer "
